@@ -360,7 +360,7 @@ def expected_choice(kind, left, plural, count):
 class FilterStream(Stream):
     name = "filters"
     exhaustive = False
-    parallel = True
+    parallel = False  # cases are cheap; a fork pool costs more than it saves on a loaded machine
 
     def cases(self, ctx):
         rng = ctx.rng_for("filters")
@@ -400,7 +400,7 @@ class FilterStream(Stream):
                 out.append(mk("npgettext", "one %", plural="many %%", ctx_="menu", count=c))
         # (3) random longer messages
         allp = PIECES + MORE_PIECES
-        for _ in range(ctx.scale(1500, 20000)):
+        for _ in range(ctx.scale(5000, 25000)):
             k = rng.range(1, 10)
             m = "".join(rng.choice(allp) for _ in range(k))
             p = "".join(rng.choice(allp) for _ in range(rng.range(1, 8)))
@@ -503,7 +503,7 @@ class FilterStream(Stream):
 
 # ------------------------------------------------------------------------------------------------------
 CONTENT = ["%", "%%", "%s", "%(x)s", "%(", "(", ")", "s", ")s", " ", "  ", "\n", " \n  ", "\t", "<b>", "k", "100", "d", "&"]
-VARS = ["x", "y", "count", "s", "x", "y", "a-b"]
+VARS = ["x", "y", "count", "s"] * 3 + ["a-b"]
 
 
 def tag_source(case) -> tuple:
@@ -546,7 +546,7 @@ def norm_pieces(ps):
 class TagStream(Stream):
     name = "tag"
     exhaustive = False
-    parallel = True
+    parallel = False  # cases are cheap; a fork pool costs more than it saves on a loaded machine
 
     def cases(self, ctx):
         rng = ctx.rng_for("tag")
@@ -579,7 +579,7 @@ class TagStream(Stream):
                 for cx in (None, "menu"):
                     out.append(mk([["c", "one "], ["v", "count"], ["c", "%"]], plural=plural, count=c, ctx_=cx))
         # (3) random blocks
-        for _ in range(ctx.scale(1500, 20000)):
+        for _ in range(ctx.scale(5000, 25000)):
             def block():
                 ps = []
                 for _ in range(rng.range(1, 7)):
@@ -717,7 +717,7 @@ class AutoescapeStream(Stream):
         rng = ctx.rng_for("autoescape")
         out = []
         allp = PIECES + ["&", "%(name)s", "100", ")s"]
-        for _ in range(ctx.scale(400, 4000)):
+        for _ in range(ctx.scale(1500, 6000)):
             m = "".join(rng.choice(allp) for _ in range(rng.range(1, 8)))
             out.append({"kind": rng.choice(["t", "gettext", "tag"]), "left": m, "x": rng.choice(["V", "<i>", "a&b", "%s"]), "literal": rng.range(0, 2) == 0})
         return out
